@@ -74,7 +74,7 @@ _src_cache = {}
 def function_ast(f):
     """(FunctionDef|Lambda node, source file) of a real function object, re-read from disk"""
     code = f.__code__
-    key = (code.co_filename, code.co_firstlineno, code.co_name)
+    key = (code.co_filename, code.co_firstlineno, code.co_name, code.co_code, code.co_names, code.co_varnames)
     if key in _src_cache:
         return _src_cache[key]
     fn = code.co_filename
@@ -397,7 +397,9 @@ class Interp:
             if v.kind[0] == 'rec':
                 rt = v.kind[1]
                 if name in rt.fields:
-                    return SV(simp(rt.acc[name](v.e)), rt.fields[name])
+                    r = SV(simp(rt.acc[name](v.e)), rt.fields[name])
+                    self.models.typing_facts(self, r)
+                    return r
                 return self.class_attr(v, rt.cls, name)
             if v.kind == 'int' and name == 'to_bytes':
                 return BoundMethod(v, self.models.int_to_bytes_fn, name)
@@ -575,6 +577,8 @@ class Interp:
         M = self.models
         if issubclass(cls, BaseException):
             return M.ExcValue(cls, args)
+        if issubclass(cls, bytes) and cls is not bytes and len(args) == 1 and isinstance(args[0], SV) and args[0].kind == 'bytes':
+            return args[0]     # bytes subclasses that only override __str__/__repr__ (bytes_as_revhex)
         if cls in RecType.registry and self.reg.rec_construct.get(cls):
             return self.reg.rec_construct[cls](self, args, kw)
         if not has_sym(args) and not has_sym(tuple(kw.values())) and M.native_constructible(cls):
